@@ -69,6 +69,28 @@ def zbits (x : Float) : Nat := if x == 0.0 then 0 else x.toBits.toNat
 def cfmt (v : List FftFlt.C) : String :=
   if v.isEmpty then "-" else ",".intercalate (v.map fun (a, b) => s!"{zbits a}:{zbits b}")
 
+/-- `sign_check`: the model's `signWith` on a traced signature; `checkKey`: also evaluate the key hypotheses of
+    `C01.signed_bytes_verify` (done on the first traced signature of every key) -/
+def signCheck (chk : Bool) (checkKey : Bool) (n f g cf cg m salt z0 z1 pk : String) : String :=
+  let n := parseNat n; let msg := parseHex m
+  match SignSkel.signWith chk n (parseInts f) (parseInts g) (parseInts cf) (parseInts cg) msg (parseHex salt) (parseInts z0) (parseInts z1) with
+  | .panic _ => "PANIC"
+  | .ok (.error why) => why
+  | .ok (.ok sig) =>
+    let v := renderRes (fun o => match o with | none => "Undecodable" | some b => toString b)
+      (Verify.verifyBytes chk n msg sig (parseHex pk))
+    -- the hypotheses of `C01.signed_bytes_verify`, evaluated on this key / salt / message
+    let hyp := match KeyCodec.pkFromBytes n (parseHex pk) with
+      | .ok (.ok h) =>
+        let k := if checkKey then KeygenSkel.keyCheck n (parseInts f) (parseInts g) (parseInts cf) (parseInts cg) h else "ok"
+        if k ≠ "ok" then k
+        else if (Hash.hashToPoint (parseHex salt ++ msg) n).length ≠ n then "hash-short"
+        else if (parseHex salt).length ≠ 40 then "salt-length"
+        else "ok"
+      | _ => "pk-undecodable"
+    renderHex sig ++ " " ++ v ++ " frac<1e-3 hyp=" ++ hyp
+
+
 def execOp (chk : Bool) (tok : List String) : String :=
   match tok with
   | ["felt_new", v] => toString (Zq.new (parseInt v))
@@ -187,24 +209,8 @@ def execOp (chk : Bool) (tok : List String) : String :=
               | .panic _ => "PANIC"
           | _ => "rejected"
   | ["sk_fields", _, _, _, _] => "skip"
-  | ["sign_check", n, f, g, cf, cg, m, salt, z0, z1, pk] =>
-      let n := parseNat n; let msg := parseHex m
-      match SignSkel.signWith chk n (parseInts f) (parseInts g) (parseInts cf) (parseInts cg) msg (parseHex salt) (parseInts z0) (parseInts z1) with
-      | .panic _ => "PANIC"
-      | .ok (.error why) => why
-      | .ok (.ok sig) =>
-        let v := renderRes (fun o => match o with | none => "Undecodable" | some b => toString b)
-          (Verify.verifyBytes chk n msg sig (parseHex pk))
-        -- the hypotheses of `C01.signed_bytes_verify`, evaluated on this key / salt / message
-        let hyp := match KeyCodec.pkFromBytes n (parseHex pk) with
-          | .ok (.ok h) =>
-            let k := KeygenSkel.keyCheck n (parseInts f) (parseInts g) (parseInts cf) (parseInts cg) h
-            if k ≠ "ok" then k
-            else if (Hash.hashToPoint (parseHex salt ++ msg) n).length ≠ n then "hash-short"
-            else if (parseHex salt).length ≠ 40 then "salt-length"
-            else "ok"
-          | _ => "pk-undecodable"
-        renderHex sig ++ " " ++ v ++ " frac<1e-3 hyp=" ++ hyp
+  | ["sign_check", n, f, g, cf, cg, m, salt, z0, z1, pk] => signCheck chk true n f g cf cg m salt z0 z1 pk
+  | ["sign_check", n, f, g, cf, cg, m, salt, z0, z1, pk, "samekey"] => signCheck chk false n f g cf cg m salt z0 z1 pk
   | ["sign", _, _, _, _] => "skip"
   | ["sign_salt", _, _, _, _] => "skip"
   | ["sign_fresh", _, _, _, _] => "skip"
